@@ -65,6 +65,7 @@ pub fn op_strategy(universe: u8, maxw: u8, with_rejects: bool) -> impl Strategy<
             hold
         }),
         4 => k.clone().prop_map(|k| MemOp::Get { k }),
+        3 => (k.clone(), 0..=maxw, prop::bool::weighted(0.6)).prop_map(|(k, w, hold)| MemOp::FetchReady { k, w, hold }),
         2 => k.clone().prop_map(|k| MemOp::Touch { k }),
         1 => k.clone().prop_map(|k| MemOp::Contains { k }),
         1 => any::<u16>().prop_map(|h| MemOp::CloneHandle { h }),
@@ -103,6 +104,9 @@ pub fn exhaustive_alphabet(cap: usize, with_resize: bool) -> Vec<MemOp> {
     for k in 0..3u8 {
         a.push(MemOp::Touch { k });
     }
+    // get_or_fetch (origin ready at once): handle kept / dropped at once
+    a.push(MemOp::FetchReady { k: 0, w: 1, hold: true });
+    a.push(MemOp::FetchReady { k: 1, w: 1, hold: false });
     a.push(MemOp::DropHandle { h: 0 });
     for k in 0..3u8 {
         a.push(MemOp::Remove { k, hold: false });
